@@ -27,9 +27,10 @@ static void fill(unsigned char *b, size_t n, int pat, size_t hot)
 	case 3: for (size_t i = 0; i < n; ++i) b[i] = (unsigned char)(i * 7 + 3); break;
 	case 4: for (size_t i = 0; i < n; ++i) b[i] = (unsigned char)(255 - (i % 251)); break;
 	case 5: memset(b, 0, n); if (hot < n) b[hot] = 0xff; break;
+	case 6: case 7: case 8: memset(b, 0, n); for (size_t i = (size_t)(pat - 6) + hot; i < n; i += 4) b[i] = 0xff; break;	// one byte lane of the 4-byte stride all 0xff (hot = lane shift 0/1)
 	}
 }
-static const char *patname[] = { "all-ff", "all-80", "all-7f", "ramp7", "ramp-down", "one-hot" };
+static const char *patname[] = { "all-ff", "all-80", "all-7f", "ramp7", "ramp-down", "one-hot", "lane0-ff", "lane1-ff", "lane2-ff", "bytes" };
 
 struct Case { unsigned size, off; int len; int pat; unsigned hot; int api; };	// api 0 = const char*, 1 = f8String
 
@@ -64,7 +65,8 @@ int main(int argc, char **argv)
 	mprotect(region, PG, PROT_NONE); mprotect(region + 3 * PG, PG, PROT_NONE);
 	struct sigaction sa; memset(&sa, 0, sizeof sa); sa.sa_handler = on_segv; sigaction(SIGSEGV, &sa, 0); sigaction(SIGBUS, &sa, 0);
 
-	std::vector<unsigned char> content(maxsize + 16);
+	const unsigned longmax = std::min<unsigned>((unsigned)R.args.num("longmax", 0), 8000);
+	std::vector<unsigned char> content(std::max(maxsize, longmax) + 16);
 	std::set<std::string> distinct;
 	auto judge = [&](const Case& c, const unsigned char *content, const std::string& id) {
 		const size_t rlen = c.len == -1 ? c.size - c.off : (size_t)c.len;
@@ -133,6 +135,19 @@ int main(int argc, char **argv)
 						if (size == 300 && off == 3 && len == 290 && pat == 3) R.sample(idb, "size=300 offset=3 len=290 pattern=ramp7");
 						if (size == 8 && off == 0 && len == -1 && pat == 0) R.sample(idb, "size=8 offset=0 len=default pattern=all-ff");
 					}
+			}
+		}
+	}
+	// part 3: long buffers (the carry bookkeeping of the strided loop is flushed every 256 bytes: a counter that is not flushed
+	// in time overflows only after more than a thousand bytes of 0xff in one byte lane)
+	for (unsigned size = maxsize + 1; size <= longmax && !R.out_of_time(); ++size, ++id) {
+		if (!R.mine(id)) continue;
+		for (int pat : { 0, 6, 7, 8, 3 }) for (unsigned hot = 0; hot < (pat >= 6 ? 2u : 1u); ++hot) {
+			fill(content.data(), size, pat, hot);
+			for (unsigned off = 0; off <= 3; ++off) for (int len : { -1, (int)(size - off), (int)(size - off) - 1 }) {
+				Case c{ size, off, len, pat, hot, 0 };
+				char idb[96]; snprintf(idb, sizeof idb, "%u,%u,%d,%d,%u", size, off, len, pat, hot);
+				R.begin_case(idb); judge(c, content.data(), idb); ++R.nontrivial;
 			}
 		}
 	}
